@@ -368,6 +368,52 @@ example :
     ops ((cache c).over (latMem c.nbs M0)) (Cache.fmap c) ins = [{ adr := 1, we := false, sel := [true, true], dat := [0, 0] }] ∧
     ¬ Consistent c.nbm M0 (ops ((cache c).over (latMem c.nbs M0)) (Cache.fmap c) ins) := by decide
 
+/-- **`wishbone.Cache` is transparent once its lines are warm — with NO assumption on the backing memory**
+    (`cache_refines_after_warmup`).  The tag-0 hypothesis of `cache_refines_mem_partial` is only needed for the
+    power-up state.  From *any* idle cache state `s` whose memories are well formed and whose clean lines hold the
+    backing bytes of the line their stored tag names (`Cache.Coherent`, a per-line condition: it is what the refill
+    of a line establishes for that line, and it constrains dirty lines not at all) over *any* backing memory `Ms`,
+    every continuation of a protocol-following master is a flat byte-memory history of
+    `Cache.absMem c s.data s.tags Ms` (the backing memory overlaid with the cached lines), for every geometry and
+    slave latency.  At power-up `Coherent` fails exactly on the lines whose tag-0 backing bytes are not 0 (no valid
+    bit: finding C07-cache-no-valid-bit, negative witness above); line by line it holds from the first refill on. -/
+theorem cache_refines_after_warmup (c : CacheCfg) (NG : Nat) (g : Cache.Geo c NG) (s : CacheState) (Ms : Mem)
+    (hidle : s.fsm = .idle) (hwf : Cache.WF c NG s.data s.tags) (hcoh : Cache.Coherent c s.data s.tags Ms)
+    (ins : List (Req × Lat)) (hm : ClassicFrom ((cache c).over (latMem c.nbs Ms)) (s, Ms) none ins)
+    (hadr : ∀ i ∈ ins, Cache.gline c i.1.adr < NG) :
+    Consistent c.nbm (Cache.absMem c s.data s.tags Ms)
+      (opsFrom ((cache c).over (latMem c.nbs Ms)) (Cache.fmap c) (s, Ms) ins) ∧
+    AckOnlyStrobedFrom ((cache c).over (latMem c.nbs Ms)) (s, Ms) ins := by
+  have hR := Cache.refines (latMem c.nbs Ms) (fun t _ M => t = M) NG g (fun i => Cache.gline c i.1.adr < NG)
+    (fun _ => True) (fun _ _ _ _ => trivial) (fun _ _ h => h) (latMem_refines c.nbs Ms)
+  have h := refines_of_inv _ (Cache.fmap c) c.nbm (fun _ => true) _ _ hR ins (s, Ms) none _
+    (Cache.Inv.mk_idle (s := s) (t := Ms) hidle hwf rfl rfl hcoh) hm hadr
+  have hk : ∀ l : List Op, l.filter (fun _ => true) = l := fun l => List.filter_eq_self.mpr (fun _ _ => rfl)
+  rw [hk] at h
+  exact h
+
+/-- Non-vacuity, on the configuration and backing memory of the negative witness (`x + 1` everywhere, so the
+    tag-0 hypothesis is false): two reads with tag 1 (addresses 2 and 3) warm both lines — the state reached from
+    reset is idle, well formed and coherent — and from it the tag-0 addresses 1 and 0 read what the backing memory
+    holds (`[3, 4]`, `[1, 2]`; cold, address 1 read `[0, 0]`), also after a write and a dirty eviction. -/
+example :
+    let c : CacheCfg := { nbm := 2, nbs := 1, offsetbits := 0, linebits := 1, tagbits := 2, wordbits := 1, saw := 3, reverse := true }
+    let M0 : Mem := fun x => x + 1
+    let q (we : Bool) (a n : Nat) (d : List Byte) : List (Req × Lat) :=
+      List.replicate n ({ cyc := true, stb := true, we := we, adr := a, sel := [true, true], dat := d, cti := 0, bte := 0 }, ⟨true, []⟩)
+    let sl := (cache c).over (latMem c.nbs M0)
+    let warm := q false 2 5 [] ++ q false 3 5 []
+    let s := (sl.runFrom sl.init warm).1
+    let ins := q false 1 5 [] ++ q false 0 5 [] ++ q true 1 2 [0x11, 0x22] ++ q false 3 7 [] ++ q false 1 5 []
+    s.fsm = .idle ∧ s.tags = [(1, false), (1, false)] ∧ s.data = [5, 6, 7, 8] ∧
+    Cache.WF c 8 s.data s.tags ∧ Cache.Coherent c s.data s.tags M0 ∧ M0 0 ≠ 0 ∧
+    ClassicFrom sl (s, M0) none ins ∧
+    (opsFrom sl (Cache.fmap c) (s, M0) ins).map (fun op => (op.adr, op.we, op.dat)) =
+      [(1, false, [3, 4]), (0, false, [1, 2]), (1, true, [0x11, 0x22]), (3, false, [7, 8]), (1, false, [0x11, 0x22])] := by
+  refine ⟨by decide, by decide, by decide, ?_, ?_, by decide, by decide, by decide⟩
+  · unfold Cache.WF; decide
+  · unfold Cache.Coherent; decide
+
 /-! ## Bounded liveness: every presented request is acknowledged within an explicit number of cycles
 
   `Within L w os`: the slave answers within `L` — the latency oracle `os` never stays silent for more than `L`
